@@ -307,3 +307,30 @@ pub fn run_flex(mode: u8, ps: &[Prog], data: &[u8], policy: crate::sources::Poli
         None => vec![3],
     }
 }
+
+/// The same run with the input delivered by the crate's own lazy source: `data` becomes the content of a
+/// BER constructed OCTET STRING (pieces of `k` octets, an empty segment, a nested indefinite segment) and
+/// the program decodes from `OctetString::into_source()`.
+pub fn run_octet_string_source(mode: u8, ps: &[Prog], data: &[u8], k: usize) -> Vec<i128> {
+    use crate::c16::{Os, os_encode, take_os};
+    use bcder::decode::IntoSource;
+    let k = k.max(1);
+    let mut parts: Vec<Os> = Vec::new();
+    for (i, piece) in data.chunks(k).enumerate() {
+        if i == 1 { parts.push(Os::Prim(vec![])); }
+        if i % 3 == 2 { parts.push(Os::Cons(true, vec![Os::Prim(piece.to_vec()), Os::Prim(vec![])])); } else { parts.push(Os::Prim(piece.to_vec())); }
+    }
+    let mut enc = Vec::new(); os_encode(&Os::Cons(data.len() % 2 == 0, parts), 0x04, &mut enc);
+    let r = crate::common::catch(|| {
+        let os = take_os(0, bcder::Tag::OCTET_STRING, &enc).expect("valid segmentation");
+        let mut log: Log = Vec::new();
+        let mut src = os.into_source();
+        let r = Constructed::decode(&mut src, mode_n(mode), |cons| exec(ps, cons, &mut log));
+        (r.is_ok(), crate::sources::drain(&mut src), log)
+    });
+    match r {
+        Some((true, left, log)) => { let mut v = vec![0, left as i128]; v.extend(log); v }
+        Some((false, _, _)) => vec![1],
+        None => vec![3],
+    }
+}
